@@ -13,6 +13,7 @@ import (
 	"testing"
 	"time"
 
+	"github.com/bmeg/grip/engine"
 	"github.com/bmeg/grip/engine/pipeline"
 	"github.com/bmeg/grip/gdbi"
 	"github.com/bmeg/grip/gripql"
@@ -24,12 +25,6 @@ import (
 )
 
 func TestMain(m *testing.M) {
-	// engine/logic and engine/queue print protocol chatter on stdout for every loop
-	devnull, _ := os.OpenFile(os.DevNull, os.O_WRONLY, 0)
-	realStdout = os.Stdout
-	if devnull != nil && os.Getenv("VERIF_SURVEY") == "" {
-		os.Stdout = devnull
-	}
 	code := pbt.Main(m, pbt.Meta{
 		Property: "C12",
 		Level:    "exploration",
@@ -41,20 +36,60 @@ func TestMain(m *testing.M) {
 			"programs terminate by their counters; unconditional cycles (documented as a denial-of-service hazard) are not generated",
 		},
 	})
-	os.Stdout = realStdout
 	gripx.Cleanup()
 	os.Exit(code)
 }
 
-var realStdout *os.File
+// quiet silences the protocol chatter that engine/logic and engine/queue print on stdout for
+// every loop. It is called inside the tests, after the testing package has taken its own
+// reference to the real stdout, so verdict lines still reach the driver.
+func quiet() func() {
+	if os.Getenv("VERIF_SURVEY") != "" {
+		return func() {}
+	}
+	devnull, err := os.OpenFile(os.DevNull, os.O_WRONLY, 0)
+	if err != nil {
+		return func() {}
+	}
+	real := os.Stdout
+	os.Stdout = devnull
+	return func() { os.Stdout = real; devnull.Close() }
+}
 
 // Case is one loop program on one graph.
 type Case struct {
-	Graph   *model.Graph `json:"graph"`
-	Steps   []model.Step `json:"steps"`
-	Procs   []int        `json:"procs"`  // GOMAXPROCS values to run under
-	Repeat  int          `json:"repeat"` // runs per GOMAXPROCS value
-	Pauses  []int        `json:"pauses"` // consumer pause pattern (µs), cyclic
+	Graph  *model.Graph `json:"graph"`
+	Steps  []model.Step `json:"steps"`
+	Procs  []int        `json:"procs"`  // GOMAXPROCS values to run under
+	Repeat int          `json:"repeat"` // runs per GOMAXPROCS value
+	Pauses []int        `json:"pauses"` // consumer pause pattern (µs), cyclic
+	// BufSize is the capacity of the channels between the steps: 0 = pipeline.Run (the
+	// server's 5000); otherwise pipeline.Start is called with it, the way Run and the job
+	// manager do with their own constant. The loop's termination may not depend on it:
+	// the queue between jump and mark is what takes up any number of travelers.
+	BufSize int `json:"bufsize,omitempty"`
+}
+
+// run starts the compiled traversal like pipeline.Run does, with the case's channel capacity.
+func run(ctx context.Context, pipe gdbi.Pipeline, bufsize int) <-chan *gripql.QueryResult {
+	if bufsize <= 0 {
+		return pipeline.Run(ctx, pipe, gripx.WorkDir())
+	}
+	resch := make(chan *gripql.QueryResult, bufsize)
+	go func() {
+		defer close(resch)
+		graph := pipe.Graph()
+		dataType := pipe.DataType()
+		markTypes := pipe.MarkTypes()
+		man := engine.NewManager(gripx.WorkDir())
+		for t := range pipeline.Start(ctx, pipe, man, bufsize, nil, nil) {
+			if !t.IsSignal() {
+				resch <- pipeline.Convert(graph, dataType, markTypes, t)
+			}
+		}
+		man.Cleanup()
+	}()
+	return resch
 }
 
 func rowOf(t *trav, final string) *gripql.QueryResult {
@@ -110,6 +145,15 @@ func runCase(t pbt.TB, c Case) {
 	if inflight > 1000 {
 		pbt.Class(t, "inflight>1000")
 	}
+	if inflight > 20000 {
+		pbt.Class(t, "inflight>20000")
+	}
+	if c.BufSize > 0 {
+		pbt.Class(t, fmt.Sprintf("channel-capacity=%d", c.BufSize))
+		if inflight > 1200 {
+			pbt.Class(t, "inflight>1200-with-small-channels")
+		}
+	}
 	gi, lerr := gripx.Load(gripx.DB("badger"), gripx.FreshName(), c.Graph)
 	if lerr != nil {
 		t.Fatalf("INFRA: load: %v", lerr)
@@ -134,7 +178,7 @@ func runCase(t pbt.TB, c Case) {
 			var got []string
 			var n int64
 			done := make(chan struct{})
-			ch := pipeline.Run(ctx, pipe, gripx.WorkDir())
+			ch := run(ctx, pipe, c.BufSize)
 			go func() {
 				defer close(done)
 				i := 0
@@ -218,6 +262,7 @@ func loopStats(c Case, ref []*trav) (passes int, inflight int) {
 }
 
 func TestReplay(t *testing.T) {
+	defer quiet()()
 	cf, ok := pbt.ReplayFile()
 	if !ok {
 		t.Skip("no replay file")
@@ -282,8 +327,8 @@ func genGraph(rt *rapid.T) *model.Graph {
 		w := rapid.IntRange(3, 12).Draw(rt, "w")
 		d := rapid.IntRange(2, 8).Draw(rt, "d")
 		if kind == "bigfan" {
-			w = rapid.SampledFrom([]int{30, 40, 60}).Draw(rt, "bw")
-			d = rapid.SampledFrom([]int{20, 30}).Draw(rt, "bd")
+			w = rapid.SampledFrom([]int{30, 40, 60, 80}).Draw(rt, "bw")
+			d = rapid.SampledFrom([]int{20, 30, 40}).Draw(rt, "bd")
 		}
 		addV("v00")
 		for i := 0; i < w; i++ {
@@ -359,14 +404,82 @@ func genProgram(rt *rapid.T, g *model.Graph) []model.Step {
 }
 
 func TestLoops(t *testing.T) {
+	defer quiet()()
 	pbt.Check(t, 260, 12000, func(rt *rapid.T) {
 		g := genGraph(rt)
 		c := Case{Graph: g, Steps: genProgram(rt, g), Repeat: pbt.Pick(2, 5)}
 		c.Procs = rapid.SampledFrom([][]int{{1, 16}, {2, 4}, {1, 2, 4, 16}, {16}}).Draw(rt, "procs")
 		c.Pauses = rapid.SampledFrom([][]int{nil, {0, 0, 50}, {200}, {0, 1000, 0, 0}}).Draw(rt, "pauses")
+		c.BufSize = rapid.SampledFrom([]int{0, 0, 1, 2, 7, 50}).Draw(rt, "bufsize")
 		pbt.Current(rt, c)
 		if pbt.WantSample(rt) {
 			pbt.Sample(rt, map[string]interface{}{"program": model.TravString(c.Steps), "vertices": len(g.V), "edges": len(g.E), "procs": c.Procs})
+		}
+		runCase(rt, c)
+	})
+}
+
+// layered builds root -> w -> w -> ... (depth fully connected layers of width w).
+func layered(w, depth int) *model.Graph {
+	g := &model.Graph{}
+	addV := func(id string) {
+		g.V = append(g.V, &model.Element{ID: id, Label: []string{"A", "B"}[len(g.V)%2], Data: map[string]interface{}{}})
+	}
+	addE := func(from, to string) {
+		g.E = append(g.E, &model.Element{ID: fmt.Sprintf("e%05d", len(g.E)), Edge: true, Label: "x", From: from, To: to, Data: map[string]interface{}{}})
+	}
+	addV("v00")
+	prev := []string{"v00"}
+	for l := 0; l < depth; l++ {
+		var cur []string
+		for i := 0; i < w; i++ {
+			id := fmt.Sprintf("l%d-%03d", l, i)
+			addV(id)
+			cur = append(cur, id)
+		}
+		for _, p := range prev {
+			for _, c := range cur {
+				addE(p, c)
+			}
+		}
+		prev = cur
+	}
+	return g
+}
+
+// TestVolume: "regardless of ... the number of travelers in flight". One generation of the
+// loop holds more travelers than every bounded buffer of the cycle together (the channels
+// between the steps and the queue's own two channels), so only the unbounded queue between
+// jump and mark lets the body drain.
+func TestVolume(t *testing.T) {
+	defer quiet()()
+	pbt.Check(t, 12, 320, func(rt *rapid.T) {
+		S := model.S
+		var g *model.Graph
+		buf := rapid.SampledFrom([]int{1, 2, 7, 50}).Draw(rt, "bufsize")
+		depth := 2
+		w := rapid.SampledFrom([]int{40, 50, 64}).Draw(rt, "w")
+		if rapid.IntRange(0, 7).Draw(rt, "huge") == 0 {
+			// wider than the server's own channels: 30^3 = 27000 travelers in the last pass
+			buf, w, depth = 0, 30, 3
+		}
+		g = layered(w, depth)
+		k := depth + rapid.IntRange(0, 1).Draw(rt, "extra")
+		steps := []model.Step{S("V", "v00"), {Op: "set", Args: []string{"c"}, Template: 0.0}, S("as", "s"), S("mark", "m"), S("out"),
+			{Op: "increment", Args: []string{"$s.c"}, N: 1}}
+		if rapid.Bool().Draw(rt, "guarded") {
+			steps = append(steps, model.Step{Op: "has", Has: lt("$s.c", k+1)}, model.Step{Op: "jump", Args: []string{"m"}, Emit: true})
+		} else {
+			steps = append(steps, model.Step{Op: "jump", Args: []string{"m"}, Has: lt("$s.c", k), Emit: true})
+		}
+		if rapid.Bool().Draw(rt, "count") {
+			steps = append(steps, S("count"))
+		}
+		c := Case{Graph: g, Steps: steps, Repeat: 1, BufSize: buf}
+		c.Procs = rapid.SampledFrom([][]int{{16}, {2}, {1}}).Draw(rt, "procs")
+		pbt.Current(rt, c)
+		if pbt.WantSample(rt) {
+			pbt.Sample(rt, map[string]interface{}{"program": model.TravString(c.Steps), "vertices": len(g.V), "edges": len(g.E), "procs": c.Procs, "channel_capacity": buf})
 		}
 		runCase(rt, c)
 	})
